@@ -34,7 +34,7 @@ GEN_SPEC = {"items": [
 ]}
 QUICK_N = 300
 THOROUGH_N = 5000
-SHARD = 60
+SHARD = 30
 DRIVER_TIMEOUT = 900
 RULE = ("histories of 8-60 pick/done/advance steps over n in {0,1,2,3,4,5,8} ready connections on the virtual clock "
         "(advances from 0 ns to 8000 s: same-instant, ns, ms, around the 1 s force-pick bound, around the 6.93 s "
@@ -209,6 +209,55 @@ def _round_case(rng):
     return {"n": 1, "start": START, "ops": ops}
 
 
+def _stat_case(rng, n, npicks):
+    """>= 3 conns, uniformly random pair draws, the connection at position 0 always fails, ~300 picks per second:
+    input of the statistical test in drive() (probabilistic clauses of the property)."""
+    ops = []
+    codes = [14] + [-1] * (n - 1)
+    for j in range(npicks):
+        ops.append({"op": "pick", "draws": _draws(rng, n)})
+        ops.append({"op": "adv", "dt": MS + rng.randint(0, 999)})
+        ops.append({"op": "done", "k": j, "code": codes[0], "codes": codes})
+        ops.append({"op": "adv", "dt": rng.randint(0, 3) * MS})
+    return {"n": n, "start": START, "ops": ops, "stat": True}
+
+
+def stat_check(case, obs):
+    """None if fine, else a message. Tolerances: failing conn picked < 0.7 x the least-picked healthy conn;
+    no conn unpicked for more than 2 s."""
+    n = case["n"]
+    cnt = [0] * n
+    lastp = [None] * n
+    gap = [0] * n
+    for op, st in zip(case["ops"], obs["steps"]):
+        if op["op"] == "pick" and st["idx"] >= 0:
+            i = st["idx"]
+            cnt[i] += 1
+            for j in range(n):
+                if lastp[j] is not None:
+                    gap[j] = max(gap[j], st["now"] - lastp[j])
+            lastp[i] = st["now"]
+    healthy = cnt[1:]
+    if cnt[0] >= 0.7 * min(healthy):
+        return "statistical test: failing conn picked %d times, healthy %s" % (cnt[0], healthy)
+    if any(l is None for l in lastp) or max(gap) > 2 * S:
+        return "statistical test: a connection was not picked for %.3f s (counts %s)" % (max(gap) / S, cnt)
+    return None
+
+
+def drive(cases, tier):
+    import vlib
+    obs, log = vlib.run_driver(GO_PKG, cases, name=ID if tier != "search" else ID + "s", timeout=DRIVER_TIMEOUT)
+    if obs is None:
+        return obs, log
+    for c, o in zip(cases, obs):
+        if c.get("stat"):
+            msg = stat_check(c, o)
+            if msg:
+                return None, msg + "\ncase: " + repr({k: v for k, v in c.items() if k != "ops"})
+    return obs, log
+
+
 def generate(rng, tier, n):
     cases = []
     for i in range(n):
@@ -223,6 +272,11 @@ def generate(rng, tier, n):
             cases.append(_round_case(rng))
     if tier != "search":
         cases.append(_slow_decay_case(rng))
+        cases.append(_stat_case(rng, 3, 500))
+    if tier == "thorough":
+        for m in (3, 5, 8):
+            cases.append(_stat_case(rng, m, 2000))
+            cases.append(_stat_case(rng, m, 2000))
     return cases
 
 
